@@ -295,12 +295,25 @@ def exception_leaders(exc_table):
     return out
 
 
-def run_block_model(repo, folder, ma_cls, dn_func, de_func, basic_ops, ops, max_paths=6000, exc_table=None, step_budget=None):
+def run_block_model(repo, folder, ma_cls, dn_func, de_func, basic_ops, ops, max_paths=6000, exc_table=None, step_budget=None, concrete=None):
     """ops: tuple of K concrete opcodes, one per generic instruction.  -> [ModelPath]
     exc_table=None: determineException is an opaque table (one generic entry / handler).
     exc_table=(T, sizes, assign): determineException and EncodedCatchHandler are *interpreted* over a generic code item
     with that try/catch structure (two try ranges may share one handler list, typed + catch-all handlers)."""
     K = len(ops)
+    # concrete=(lens, targets): addresses are labels - instruction k has length lens[k] and determineNext(k) returns the list
+    # targets[k]; the method has no try/catch table.  (Targets may lie before offset 0 or inside an instruction.)
+    if concrete is not None:
+        c_lens, c_targets = concrete
+        if exc_table is not None or len(c_lens) != K:
+            raise AnalysisError("block model: inconsistent scenario")
+
+    def len_of(k):
+        return c_lens[k] if concrete is not None else LENK(k)
+
+    def idx_of(k):
+        return sum(c_lens[:k]) if concrete is not None else IDXK(k)
+
     ech_cls = de_func.module.classes.get("EncodedCatchHandler") if exc_table is not None else None
     if exc_table is not None and (ech_cls is None or ech_cls.lookup("__init__") is None):
         raise AnalysisError("anchor vanished: EncodedCatchHandler.__init__")
@@ -311,7 +324,7 @@ def run_block_model(repo, folder, ma_cls, dn_func, de_func, basic_ops, ops, max_
     if init is None or cbb is None:
         raise AnalysisError("anchor vanished: MethodAnalysis.__init__/_create_basic_block")
     bflag = [op in basic_ops for op in ops]
-    instr_pairs = [(IDXK(k), INSK(k)) for k in range(K)]
+    instr_pairs = [(idx_of(k), INSK(k)) for k in range(K)]
     preset = {("c", "isnone", "vm"): 0, ("c", "isa", "method", "ExternalMethod"): 0,
               ("c", "truthy", key(mcall(METHOD, "get_code"))): 1}
 
@@ -385,7 +398,7 @@ def run_block_model(repo, folder, ma_cls, dn_func, de_func, basic_ops, ops, max_
                 if name == "get_op_value":
                     return ops[k]
                 if name == "get_length":
-                    return LENK(k)
+                    return len_of(k)
                 return NotImplemented
             if isinstance(recv, Obj) and recv.cls is not None and recv.cls.name == "DEXBasicBlock":
                 if name == "set_childs":
@@ -399,15 +412,19 @@ def run_block_model(repo, folder, ma_cls, dn_func, de_func, basic_ops, ops, max_
         def h_repo_call(it, fobj, args, kwargs, node, func):
             if fobj is dn_func or fobj.qualname == dn_func.qualname:
                 k = args[0].args[0] if args and isinstance(args[0], Sym) and args[0].op == "ins" else None
-                if k is None or len(args) != 3 or not lin_eq(args[1], IDXK(k)) or args[2] != METHOD:
+                if k is None or len(args) != 3 or not lin_eq(args[1], idx_of(k)) or args[2] != METHOD:
                     P.dn_bad.append((tuple(args), node))
                     return Sym("DN?", *[Sym(key(a)) for a in args])
+                if concrete is not None:
+                    return list(c_targets.get(k, []))
                 return DNK(k)
             if fobj is de_func or fobj.qualname == de_func.qualname:
                 if len(args) != 2 or args[1] != METHOD:
                     P.exc_bad.append((tuple(args), node))
                 if exc_table is not None:
                     return it.call_function(de_func, list(args), kwargs)
+                if concrete is not None:
+                    return []
                 return EXC
             if exc_table is not None and building["h"] is not None:
                 if fobj.qualname == "readsleb128":
@@ -465,7 +482,12 @@ def run_block_model(repo, folder, ma_cls, dn_func, de_func, basic_ops, ops, max_
         P.symloops = [t[1] for t in it.trace if t[0] == "symloop"]
         # ---- specification partition, evaluated on the same atoms ----------------
         def leader(k):
-            idx = IDXK(k)
+            idx = idx_of(k)
+            if concrete is not None:
+                for j in range(K):
+                    if bflag[j] and any(t == idx for t in c_targets.get(j, []) if t != -1):
+                        return "branch target of instruction %d" % j
+                return None
             for j in range(K):
                 if bflag[j] and it.atom("in", key(idx), key(DNK(j))):
                     return "branch target of instruction %d" % j
@@ -496,6 +518,9 @@ def run_block_model(repo, folder, ma_cls, dn_func, de_func, basic_ops, ops, max_
             spec.append(cur)
         P.spec = spec
         P.why = why
+        P.idxs = [idx_of(k) for k in range(K)]
+        P.lens = [len_of(k) for k in range(K)]
+        P.targets = dict(c_targets) if concrete is not None else None
         P.conds = [t[1] for t in it.trace if t[0] == "cond"]
         return P
 
@@ -549,16 +574,16 @@ def compare_partition(P, ops, basic_ops):
             out.append((cat, "blocks %s, expected %s (%s)" % (got, spec, scen)))
         return out
     for (b, start, end, nb, ll, pushed), ks in zip(P.blocks, spec):
-        es = IDXK(ks[0])
-        ee = lin({LENK(j): 1 for j in range(ks[-1] + 1)}, 0)
+        es = P.idxs[ks[0]]
+        ee = (Lin.of(P.idxs[ks[-1]]) + Lin.of(P.lens[ks[-1]])).simplify()
         if not lin_eq(start, es):
             out.append(("contiguity/start", "block %s starts at %s, expected %s (%s)" % (ks, show(start), show(es), scen)))
         if not lin_eq(end, ee):
             out.append(("contiguity/end", "block %s ends at %s, expected %s (%s)" % (ks, show(end), show(ee), scen)))
         if not (isinstance(nb, int) and nb == len(ks)):
             out.append(("count", "block %s reports %s instructions, expected %d (%s)" % (ks, show(nb), len(ks), scen)))
-        if not lin_eq(ll, LENK(ks[-1])):
-            out.append(("last-length", "block %s reports last length %s, expected %s (%s)" % (ks, show(ll), show(LENK(ks[-1])), scen)))
+        if not lin_eq(ll, P.lens[ks[-1]]):
+            out.append(("last-length", "block %s reports last length %s, expected %s (%s)" % (ks, show(ll), show(P.lens[ks[-1]]), scen)))
     return out
 
 
@@ -579,7 +604,18 @@ def compare_callsite(P, ops, basic_ops):
             continue
         arg = c[0]
         exact(arg, "set_childs call site")
-        if k is not None and ops[k] in basic_ops:
+        if k is not None and ops[k] in basic_ops and getattr(P, "targets", None) is not None:
+            if not (isinstance(arg, list) and arg == list(P.targets.get(k, []))):
+                out.append(("callsite/branch", "block ending in branch instruction #%d gets successors %s, expected determineNext's result %s"
+                            % (k, show(arg)[:80], P.targets.get(k, []))))
+            # an edge can only land on its target if the target (when it is an instruction start) begins a block
+            starts = [b_[1] for b_ in P.blocks]
+            for t in P.targets.get(k, []):
+                if t != -1 and t in P.idxs and not any(lin_eq(s_, t) for s_ in starts):
+                    out.append(("callsite/target-not-block-start",
+                                "instruction #%d branches to address %s (start of instruction #%d) but no block begins there: the successor edge "
+                                "ends in the middle of a block (blocks start at %s)" % (k, t, P.idxs.index(t), [show(s_) for s_ in starts])))
+        elif k is not None and ops[k] in basic_ops:
             if arg != DNK(k):
                 out.append(("callsite/branch", "block ending in branch instruction #%d gets successors %s, expected determineNext(ins#%d, idx#%d)" % (k, show(arg)[:80], k, k)))
         else:
